@@ -585,6 +585,25 @@ VARIANTS = [
         {"file": LOGR, "old": "        _hydrate_meta_uuid(\"AgentID\")\n        _hydrate_meta_uuid(\"SelectedFull\")\n        _hydrate_meta_uuid(\"SessionID\")\n",
          "new": "        for uuid_key in _UUID_META:\n            _hydrate_meta_uuid(uuid_key)\n"},
         {"file": LOGR, "old": "class BaseMessageLogger:\n", "new": "_UUID_META = (\"AgentID\", \"SelectedFull\", \"SessionID\")\n\n\nclass BaseMessageLogger:\n"}]},
+    # ---- round 9 mechanisms
+    {"name": "R15 HTTP _get_meta falls through with the lower-cased name", "file": LOGR, "expect": "C18.R15",
+     "old": "            return self.flow.response.status_code\n        return super()._get_meta(name)",
+     "new": "            return self.flow.response.status_code\n        return super()._get_meta(lower_name)"},
+    {"name": "P R15 HTTP _get_meta keeps the lower-cased name in its own local", "file": LOGR, "expect": "silent",
+     "old": "        lower_name = name.lower()\n        if lower_name == \"url\":",
+     "new": "        wanted = name.lower()\n        lower_name = wanted\n        if lower_name == \"url\":"},
+    {"name": "P R2 infix operators looked up in a table of (token, class) pairs", "file": FILT, "expect": "silent",
+     "old": "            if children[1] == \"&&\":\n                return AndFilterNode(children[0], children[2])\n"
+            "            elif children[1] == \"||\":\n                return OrFilterNode(children[0], children[2])\n"
+            "            else:\n                raise ValueError(f\"Unrecognized operator {children[1]}\")\n",
+     "new": "            for token, node_cls in ((\"&&\", AndFilterNode), (\"||\", OrFilterNode)):\n"
+            "                if children[1] == token:\n                    return node_cls(children[0], children[2])\n"
+            "            raise ValueError(f\"Unrecognized operator {children[1]}\")\n"},
+    {"name": "P R3 And built on MatchResult classmethod constructors", "expect": "silent", "edits": [
+        {"file": FILT, "old": "    def __bool__(self):\n        return self.result\n",
+         "new": "    def __bool__(self):\n        return self.result\n\n    @classmethod\n    def no_match(cls):\n        return cls(False, [])\n"},
+        {"file": FILT, "old": "        if not left_match:\n            return MatchResult(False, [])\n        right_match = self.right_node.match(msg, short_circuit)",
+         "new": "        if not left_match:\n            return MatchResult.no_match()\n        right_match = self.right_node.match(msg, short_circuit)"}]},
     # ---- documented limits
     {"name": "X bare selector matches on the raw value instead of truthiness", "file": LOGR, "expect": "miss",
      "old": "                return bool(val)\n", "new": "                return val is not None\n"},
